@@ -45,7 +45,7 @@ func initTokens(mode string) {
 		base = finite
 	case "wkb": // as "special" without the canonical NaN, which WKB reserves for the empty point
 		for _, u := range specials {
-			if u != 0x7FF8000000000000 {
+			if u != 0x7FF8000000000000 && u != 0x7FF8000000000001 && u != 0xFFF8000000000000 { // ... and without the patterns of the fixed tokens 125 / 126
 				base = append(base, u)
 			}
 		}
@@ -85,6 +85,9 @@ func initTokens(mode string) {
 			}
 		}
 		palette[t] = f
+		if o, dup := bitsToTk[math.Float64bits(f)]; dup && o != t {
+			panic("harness: two ordinate tokens share one bit pattern")
+		}
 		bitsToTk[math.Float64bits(f)] = t
 	}
 }
